@@ -116,6 +116,12 @@ pub fn worker_case(line: &str) -> String {
     if let Some(rest) = line.strip_prefix("syn ") {
         return syn_case(rest);
     }
+    if let Some(rest) = line.strip_prefix("arena ") {
+        return arena_case(rest);
+    }
+    if let Some(rest) = line.strip_prefix("cb ") {
+        return cb_case(rest);
+    }
     if let Some(rest) = line.strip_prefix("seq ") {
         let (a, b) = match rest.split_once(" || ") {
             Some(x) => x,
@@ -150,6 +156,119 @@ pub fn worker_case(line: &str) -> String {
     }
 }
 
+
+// ---------------------------------------------------------------- earlier documents in the caller's arena; racing callbacks
+
+fn render3<'a>(root: &'a comrak::nodes::AstNode<'a>, c: &comrak::Options) -> [Vec<u8>; 3] {
+    let mut h = Vec::new();
+    format_html(root, c, &mut h).unwrap();
+    let mut x = Vec::new();
+    format_xml(root, c, &mut x).unwrap();
+    let mut m = Vec::new();
+    format_commonmark(root, c, &mut m).unwrap();
+    [h, x, m]
+}
+
+/// `arena <input>`: the document parsed into a fresh arena, and into an arena that already holds
+/// earlier documents (600 000 nodes of them: the arena is the caller's and outlives a document).
+fn arena_case(rest: &str) -> String {
+    use std::panic::{catch_unwind, AssertUnwindSafe};
+    let (o, md) = match Src::parse_input(rest) {
+        Some((o, Src::Doc(md))) => (o, md),
+        _ => return "ERR bad-input".into(),
+    };
+    let c = o.to_comrak();
+    let r = catch_unwind(AssertUnwindSafe(|| {
+        let fresh = {
+            let arena = comrak::Arena::new();
+            render3(comrak::parse_document(&arena, &md, &c), &c)
+        };
+        let arena = comrak::Arena::new();
+        let filler = "x\n\n".repeat(300_000);
+        let _ = comrak::parse_document(&arena, &filler, &c);
+        let _ = comrak::parse_document(&arena, "| a | b |\n|---|---|\n| 1 |\n\n[^n]: x\n\n# h\n\n# h\n", &c);
+        let after = render3(comrak::parse_document(&arena, &md, &c), &c);
+        (fresh, after)
+    }));
+    match r {
+        Ok((x, y)) => {
+            for w in 0..3 {
+                if x[w] != y[w] {
+                    return format!("differs {} :: {}", FMT[w], diff_window(&x[w], &y[w]));
+                }
+            }
+            "same".into()
+        }
+        Err(_) => "skipped-panic".into(),
+    }
+}
+
+/// `cb <threads> <input>`: the document parsed with a `broken_link_callback` on one thread, and on
+/// `threads` threads sharing one `Options` whose callback keeps every caller inside until half of the
+/// threads are inside it at the same moment (or 40 ms have passed).
+fn cb_case(rest: &str) -> String {
+    use comrak::{BrokenLinkReference, ResolvedReference};
+    use std::panic::{catch_unwind, AssertUnwindSafe};
+    use std::sync::atomic::{AtomicUsize, Ordering};
+    use std::sync::Arc;
+    let mut it = rest.splitn(2, ' ');
+    let threads: usize = it.next().and_then(|x| x.parse().ok()).unwrap_or(8);
+    let (o, md) = match it.next().and_then(Src::parse_input) {
+        Some((o, Src::Doc(md))) => (o, md),
+        _ => return "ERR bad-input".into(),
+    };
+    let resolve = |r: &BrokenLinkReference| Some(ResolvedReference { url: format!("/r/{}", r.normalized), title: r.original.to_string() });
+    let mut plain = o.to_comrak();
+    plain.parse.broken_link_callback = Some(Arc::new(move |r: BrokenLinkReference| resolve(&r)));
+    let single = match catch_unwind(AssertUnwindSafe(|| {
+        let arena = comrak::Arena::new();
+        render3(comrak::parse_document(&arena, &md, &plain), &plain)
+    })) {
+        Ok(x) => x,
+        Err(_) => return "skipped-panic".into(),
+    };
+    let inside = Arc::new(AtomicUsize::new(0));
+    let need = (threads / 2).max(2);
+    let mut shared = o.to_comrak();
+    let g = inside.clone();
+    shared.parse.broken_link_callback = Some(Arc::new(move |r: BrokenLinkReference| {
+        g.fetch_add(1, Ordering::SeqCst);
+        let t0 = std::time::Instant::now();
+        while g.load(Ordering::SeqCst) < need && t0.elapsed() < std::time::Duration::from_millis(40) {
+            std::thread::yield_now();
+        }
+        std::thread::sleep(std::time::Duration::from_millis(2));
+        g.fetch_sub(1, Ordering::SeqCst);
+        resolve(&r)
+    }));
+    let shared = Arc::new(shared);
+    let md = Arc::new(md);
+    let hs: Vec<_> = (0..threads)
+        .map(|_| {
+            let (c, md) = (shared.clone(), md.clone());
+            std::thread::spawn(move || {
+                catch_unwind(AssertUnwindSafe(|| {
+                    let arena = comrak::Arena::new();
+                    render3(comrak::parse_document(&arena, &md, &c), &c)
+                }))
+                .ok()
+            })
+        })
+        .collect();
+    for h in hs {
+        match h.join() {
+            Ok(Some(y)) => {
+                for w in 0..3 {
+                    if single[w] != y[w] {
+                        return format!("differs {} :: {}", FMT[w], diff_window(&single[w], &y[w]));
+                    }
+                }
+            }
+            _ => return "skipped-panic".into(),
+        }
+    }
+    "same".into()
+}
 
 // ---------------------------------------------------------------- syntect stage
 // The syntax highlighter plugin (src/plugins/syntect.rs) is part of the property's subject: one
@@ -534,6 +653,41 @@ pub fn run(cfg: &Cfg, rep: &mut Report) {
         }
     }
     rep.add("sequence-comparisons", seqs.len() as u64);
+    // earlier documents in the same (caller-owned) arena; callbacks racing on threads that share the options
+    let mut extra: Vec<String> = vec![];
+    let ragged = ["| a | b | c |\n|---|---|---|\n| 1 |\n| 1 | 2 | 3 | 4 |\n", "x[^n] y[^n]\n\n[^n]: z\n\n# h\n\n# h\n", "- a\n  - b\n\n1. c\n"];
+    for md in ragged {
+        let mut o = Opts::all_extensions();
+        o.header_ids = Some("h-".into());
+        extra.push(format!("arena {}", Src::Doc(md.to_string()).input(&o)));
+    }
+    let docs: Vec<&String> = lines.iter().filter(|l| l.starts_with("doc ")).collect();
+    let narena = if cfg.tier_thorough { 200 } else { 40 };
+    for _ in 0..narena.min(docs.len()) {
+        extra.push(format!("arena {}", docs[rng.below(docs.len())]));
+    }
+    for md in ["See [Page One] and [page two][].\n", "[a][b] [c] ![d][e]\n\n> [f]\n\n- [g][]\n", "[x]\n\n[x]: /defined\n\n[y] [z][] [w][v]\n"] {
+        for threads in [16usize, 6] {
+            extra.push(format!("cb {} {}", threads, Src::Doc(md.to_string()).input(&Opts::default())));
+        }
+    }
+    let ncb = if cfg.tier_thorough { 150 } else { 30 };
+    let with_brackets: Vec<&&String> = docs.iter().filter(|l| l.rsplit(' ').next().map_or(false, |h| h.contains("5b") && h.contains("5d"))).collect();
+    for _ in 0..ncb.min(with_brackets.len()) {
+        extra.push(format!("cb {} {}", 12, with_brackets[rng.below(with_brackets.len())]));
+    }
+    let outs = crate::worker::run_cases("C05", &extra, std::time::Duration::from_secs(60), 6);
+    for (l, got) in extra.iter().zip(outs.iter()) {
+        rep.s_evals += 1;
+        let (kind, what) = if l.starts_with("arena ") { ("depends-on-earlier-document", "shared-arena") } else { ("thread-race-differs", "broken-link-callback") };
+        rep.count(if l.starts_with("arena ") { "shared-arena-comparisons" } else { "racing-callback-comparisons" });
+        match got {
+            crate::worker::Outcome::Reply(r, _) if r == "same" || r == "skipped-panic" => {}
+            crate::worker::Outcome::Reply(r, _) => rep.fail(kind, what, l.clone(), r.clone()),
+            crate::worker::Outcome::Hang(ms) => rep.fail(kind, "hang", l.clone(), format!("no answer within {} ms", ms)),
+            crate::worker::Outcome::Died { how, .. } => rep.fail(kind, "died", l.clone(), how.clone()),
+        }
+    }
     // syntect: documents with fenced code blocks in known / unknown / empty languages, rendered
     // through a highlighter shared by all cases of a worker, by racing threads, and a fresh one
     let nsyn = if cfg.tier_thorough { 6000 } else if cfg.full { 1500 } else { 400 };
@@ -582,8 +736,8 @@ pub fn replay(kind: &str, input: &str) -> Result<Option<String>, String> {
         }
         return Ok(None);
     }
-    if input.starts_with("seq ") {
-        let outs = crate::worker::run_cases("C05", &[input.to_string()], std::time::Duration::from_secs(20), 1);
+    if input.starts_with("seq ") || input.starts_with("arena ") || input.starts_with("cb ") {
+        let outs = crate::worker::run_cases("C05", &[input.to_string()], std::time::Duration::from_secs(60), 1);
         return Ok(match &outs[0] {
             crate::worker::Outcome::Reply(l, _) if l == "same" || l == "skipped-panic" => None,
             crate::worker::Outcome::Reply(l, _) => Some(format!("{}: {}", kind, l)),
